@@ -526,8 +526,12 @@ func measure(r *Result, sc *scenario) (nontrivial map[string]bool) {
 	r.Inc("guided_late_witness_attempts", sc.d.guidedLateWitnesses)
 	r.Inc("empty_frames", empty)
 	// other-parents far behind in rounds and ahead in Lamport time (a validator that talked to itself)
+	maxLamport := 0
 	for _, g := range sc.d.events {
 		e, err := ref.store.GetEvent(g.ev.Hex())
+		if err == nil && e.VerifLamport() != nil && *e.VerifLamport() > maxLamport {
+			maxLamport = *e.VerifLamport()
+		}
 		if err != nil || e.SelfParent() == "" || e.OtherParent() == "" {
 			continue
 		}
@@ -544,6 +548,10 @@ func measure(r *Result, sc *scenario) (nontrivial map[string]bool) {
 		}
 	}
 	r.Inc("events", len(sc.d.events))
+	r.Inc(fmt.Sprintf("scenarios_with_lamport_timestamps_up_to_%d00", maxLamport/100), 1)
+	if maxLamport >= 256 {
+		r.Inc("scenarios_with_lamport_timestamps_above_255", 1)
+	}
 	r.Inc("blocks_ref", len(ref.blocks))
 	r.Inc("nodes", len(sc.nodes))
 	_ = maxElection
@@ -654,6 +662,11 @@ func runHGWith(r *Result, thorough bool, prop string, rng *rand.Rand) {
 		if prop != "C18" && !dynamic && i%6 == 1 {
 			o = hermitOpts(rng, thorough)
 			r.Inc("hermit_scenarios", 1)
+		}
+		if prop == "C04" && !dynamic && i%14 == 6 {
+			// a deep history: Lamport timestamps well above 255 (multi-byte encodings, wide sort keys)
+			o = genOpts{n0: 4, steps: 640 + rng.Intn(80), txRate: 3, staleOp: true}
+			r.Inc("deep_scenarios", 1)
 		}
 		if prop == "C18" && i%2 == 0 {
 			// a long, busy, well-connected run (many blocks) in which one honest clock runs fast and is
